@@ -583,9 +583,9 @@ func ruleSkipper(e *Env, rule string, skip *ssa.Function) {
 						incOK = true
 					case bo.Op == token.SUB && k == 1 && phiChain(bo.X, depth):
 						decOK = true
-					case bo.Op == token.EQL && k == 0:
-						exitOK = true
-					case bo.Op == token.EQL && (k == '{' || k == '['):
+					case (bo.Op == token.EQL || bo.Op == token.NEQ || bo.Op == token.GTR || bo.Op == token.LEQ) && k == 0 && phiChain(bo.X, depth):
+						exitOK = true // `depth == 0` at the loop tail, or `depth != 0` / `depth > 0` as the loop condition (depth starts at 1)
+					case (bo.Op == token.EQL || bo.Op == token.NEQ) && (k == '{' || k == '['):
 						opens = append(opens, k)
 					}
 				}
